@@ -8,6 +8,7 @@
  *                                                             preceded by "S <id> <log points with a wrapped items ring> <of these: full> <max ring capacity>
  *                                                             <forced collections> <heap payloads made> <payload contents read back>"
  *   Q <ops...>\n                                              ring-buffer script on a real JanetQueue (janet_q_*), one output line
+ *   M <ops...>\n                                              the same ops on a real channel's items ring; per op the ids marked by janet_chanat_mark
  * Program source defines (defn vprog [] ...) using the cfuns  vchan vreg vb ve  registered below.
  */
 #define clock_gettime verif_clock_gettime
@@ -417,6 +418,54 @@ static void run_queue(char *line) {
     janet_q_deinit(&q);
 }
 
+/* ---- mark script: the same ops on the items ring of a REAL channel holding fresh heap strings; after each op the real
+ * gcmark callback of the channel type (janet_chanat_mark) is called and the ids of the objects it marked are printed
+ * (sorted), then the marks are cleared.  No collection runs here: only the mark function's walk is observed. ---------- */
+#define MAXOBJ 4096
+static void run_mark(char *line) {
+    static Janet objs[MAXOBJ];
+    int nobj = 0;
+    JanetChannel *ch = janet_channel_make(1000);
+    janet_gcroot(janet_wrap_abstract(ch));
+    int saved = janet_gclock();
+    char *save = NULL;
+    int first = 1;
+    for (char *tok = strtok_r(line, " ", &save); tok; tok = strtok_r(NULL, " ", &save)) {
+        if ((tok[0] == 'p' || tok[0] == 'h') && nobj < MAXOBJ) {
+            char text[96];
+            int id = atoi(tok + 1);
+            pay_text(text, id);
+            Janet v = janet_cstringv(text);
+            objs[nobj++] = v;
+            if (tok[0] == 'p') janet_q_push(&ch->items, &v, sizeof v); else janet_q_push_head(&ch->items, &v, sizeof v);
+        } else if (tok[0] == 'o') {
+            Janet v;
+            janet_q_pop(&ch->items, &v, sizeof v);
+        } else continue;
+        janet_channel_type.gcmark(ch, sizeof *ch);
+        /* ids are handed out in increasing order by the generator; print in id order */
+        printf("%s[", first ? "" : " ");
+        first = 0;
+        int f2 = 1;
+        int ids[MAXOBJ], n = 0;
+        for (int k = 0; k < nobj; k++) {
+            JanetGCObject *hd = (JanetGCObject *) janet_string_head(janet_unwrap_string(objs[k]));
+            if (hd->flags & JANET_MEM_REACHABLE) {
+                hd->flags &= ~JANET_MEM_REACHABLE;
+                ids[n++] = pay_read(objs[k]);
+            }
+        }
+        for (int a = 1; a < n; a++) { int v = ids[a], b = a; while (b > 0 && ids[b - 1] > v) { ids[b] = ids[b - 1]; b--; } ids[b] = v; }
+        for (int a = 0; a < n; a++) { printf("%s%d", f2 ? "" : ",", ids[a]); f2 = 0; }
+        printf("]");
+    }
+    printf("\n");
+    /* empty the ring before the channel is released, then let the strings go */
+    ch->items.head = ch->items.tail = 0;
+    janet_gcunlock(saved);
+    janet_gcunroot(janet_wrap_abstract(ch));
+}
+
 int main(void) {
     janet_init();
     char *line = NULL; size_t cap = 0; ssize_t n;
@@ -432,6 +481,8 @@ int main(void) {
             free(src);
         } else if (line[0] == 'Q' && line[1] == ' ') {
             run_queue(line + 2);
+        } else if (line[0] == 'M' && line[1] == ' ') {
+            run_mark(line + 2);
         } else if (n > 0) {
             printf("bad-line\n");
         }
